@@ -421,7 +421,10 @@ def _rpc_chain(h: ast.ExceptHandler, where: str) -> list[tuple[str, str]]:
         if not isinstance(exc, ast.Name) or exc.id not in EXC:
             raise Untranslatable("%s: raises `%s`" % (where, ast.unparse(body[0])))
         rows.append((st, exc.id))
-        if i.orelse:
+        if len(i.orelse) == 1 and isinstance(i.orelse[0], ast.If):
+            # `elif`: the chain continues; what follows the whole if statement follows its last branch too
+            walk([i.orelse[0]] + stmts[1:])
+        elif i.orelse:
             if len(stmts) != 1:
                 raise Untranslatable("%s: statements after an if/else chain" % where)
             walk(list(i.orelse))
